@@ -2,8 +2,10 @@
 # seedcheck.sh <PID> <tests...> : take the seeded change from /tmp/wt_<PID>, verify it independently against /repo, run the check, store under seeded/<PID>/
 set -u
 P="$1"; shift
-WT=/tmp/wt_$P
-D=/verif/seeded/$P
+SUF="${SUF:-}"          # e.g. SUF=b for the second round (worktrees /tmp/w2_<PID>, stored as seeded/<PID>b)
+WT=${WT:-/tmp/wt_$P}
+[ -n "$SUF" ] && WT=/tmp/w2_$P
+D=/verif/seeded/$P$SUF
 [ -f "$WT/seed_patch.diff" ] || { echo "no patch in $WT"; exit 2; }
 mkdir -p "$D"
 cp "$WT/seed_patch.diff" "$D/patch.diff"; cp "$WT/seed_demo.py" "$D/demo.py"; cp "$WT/seed_meta.json" "$D/agent_meta.json" 2>/dev/null
@@ -15,10 +17,9 @@ echo "== demo with patch"; (cd /tmp && timeout 600 /venv/bin/python -W ignore "$
 echo "== tests with patch: $*"; timeout 3000 /venv/bin/python -m pytest -q -p no:cacheprovider "$@" 2>&1 | tail -1 | tee /tmp/seed_tests.log
 echo "== check with patch"; cd /verif; ./check "$P" --tier quick > /tmp/seed_check.log 2>&1; RC_CHECK=$?; grep -E "^\[|^VIOLATION|^HARNESS|^KNOWN" /tmp/seed_check.log | cut -c1-250 | head -5
 git -C /repo checkout -- .
-python3 - "$P" "$RC_CLEAN" "$RC_PATCH" "$RC_CHECK" "$*" <<'PY'
+python3 - "$P" "$RC_CLEAN" "$RC_PATCH" "$RC_CHECK" "$*" "$D" <<'PY'
 import json, sys, os
-P, rc_clean, rc_patch, rc_check, tests = sys.argv[1], int(sys.argv[2]), int(sys.argv[3]), int(sys.argv[4]), sys.argv[5]
-D = f"/verif/seeded/{P}"
+P, rc_clean, rc_patch, rc_check, tests, D = sys.argv[1], int(sys.argv[2]), int(sys.argv[3]), int(sys.argv[4]), sys.argv[5], sys.argv[6]
 am = {}
 try: am = json.load(open(f"{D}/agent_meta.json"))
 except Exception: pass
